@@ -106,8 +106,14 @@ pub fn init_panic_hook(config: Config) {
             eprintln!("Task failed, serializing schedule");
             let task_name = ExecutionState::failing_task();
             eprintln!("test panicked in task '{task_name}'");
+            // Only a panic raised while an execution is running on this thread has a schedule worth
+            // persisting; a later, unrelated panic on the same thread must not emit a stale one.
+            let in_execution = !matches!(
+                ExecutionState::try_with(|_| ()),
+                Err(crate::runtime::execution::ExecutionStateBorrowError::NotSet)
+            );
             let config = CURRENT_CONFIG.with(|c| c.try_borrow().ok().and_then(|c| c.clone()));
-            if let Some(config) = config {
+            if let (true, Some(config)) = (in_execution, config) {
                 persist_failure(&config);
             }
             original_hook(panic_info);
